@@ -3,6 +3,7 @@ package props
 import (
 	"bytes"
 	"fmt"
+	"sync"
 
 	"verif/harness/gen"
 	"verif/harness/mon"
@@ -29,7 +30,7 @@ func init() {
 			"a sysex exceeds the buffer when its total length including F0 and F7 is larger than SysExBufferSize",
 			"at the drivers.Reader level the callback contract pads 0/1-data messages with zeros to 3 bytes and reports a stray F7 as [F7 00 00] (internal contract with midi.ListenTo); at the midi.ListenTo level nothing may be delivered for a stray F7",
 		},
-		Require: []string{"streams_exhaustive", "streams_random", "deliveries_l1", "deliveries_l2", "sysex_overflows", "stray_f7", "suffix_checks", "abandoned_messages", "large_buffer_sysex_streams"},
+		Require: []string{"streams_exhaustive", "streams_random", "deliveries_l1", "deliveries_l2", "sysex_overflows", "stray_f7", "suffix_checks", "abandoned_messages", "large_buffer_sysex_streams", "concurrent_reader_streams"},
 		Run:     runC06,
 		Post: func(m *mon.Merged) {
 			for _, cfg := range c06Cfgs {
@@ -315,6 +316,58 @@ func runC06(c *mon.Ctx) {
 			c.Violation("l1-vs-receiver", fmt.Sprintf("sysex of %d bytes under %s: %s", n, cfg, d), in, fmt.Sprintf("%d reference deliveries", len(want)), fmt.Sprintf("%d deliveries", len(got)))
 		}
 		c.Enumerated(1)
+	})
+
+	// independent Reader objects used from 8 goroutines at once must not interfere
+	c.Each("concurrent-readers", c.N(8, 200), func(i int64, r *mon.Rand) {
+		type job struct {
+			cfg    liveCfg
+			stream []byte
+			got    []obs
+			pan    any
+		}
+		jobs := make([]*job, 64)
+		for k := range jobs {
+			rr := mon.NewRand(c.Seed, "C06conc", fmt.Sprint(i), uint64(k))
+			n := rr.Range(20, 400)
+			s := make([]byte, n)
+			for j := range s {
+				if rr.P(1, 3) {
+					s[j] = A[rr.Intn(len(A))]
+				} else {
+					s[j] = rr.Byte() & 0x7F
+				}
+			}
+			jobs[k] = &job{cfg: liveCfg{sysex: rr.Bool(), clock: true, sense: true, buf: uint32(rr.Pick(4, 16, 0))}, stream: s}
+		}
+		var wg sync.WaitGroup
+		for g := 0; g < 8; g++ {
+			wg.Add(1)
+			go func(g int) {
+				defer wg.Done()
+				for k := g; k < len(jobs); k += 8 {
+					j := jobs[k]
+					func() {
+						defer func() { j.pan = recover() }()
+						j.got = runL1(j.cfg, splitBytes(j.stream), ones(len(j.stream)), nil)
+					}()
+				}
+			}(g)
+		}
+		wg.Wait()
+		for _, j := range jobs {
+			c.Count("concurrent_reader_streams", 1)
+			c.Eval(1)
+			in := map[string]any{"stream": mon.Hex(j.stream), "config": j.cfg.String(), "scenario": "8 goroutines, each with its own drivers.Reader"}
+			if j.pan != nil {
+				c.Violation("panic:reader-concurrent", fmt.Sprintf("panic: %v", j.pan), in, nil, nil)
+				continue
+			}
+			want := refRun(j.cfg, splitBytes(j.stream), ones(len(j.stream)), nil)
+			if d := cmpL1(j.got, want, true); d != "" {
+				c.Violation("l1-vs-receiver-concurrent", "a Reader used concurrently with 7 other Readers: "+d, in, delivList(want), obsList(j.got))
+			}
+		}
 	})
 
 	// garbage prefix + well-formed suffix: the suffix must be decoded exactly (ground truth
